@@ -254,6 +254,7 @@ pub struct Ctx {
     pub stop: AtomicBool,
     pub strict: bool,
     pub replays_seen: AtomicU64,
+    pub replayed_kinds: Mutex<HashSet<String>>,
     pub start: Instant,
 }
 
@@ -319,6 +320,7 @@ impl Ctx {
             stop: AtomicBool::new(false),
             strict: false,
             replays_seen: AtomicU64::new(0),
+            replayed_kinds: Mutex::new(HashSet::new()),
             start: Instant::now(),
         }
     }
@@ -331,6 +333,10 @@ impl Ctx {
         match &*self.mode.lock().unwrap() {
             RunMode::Normal => None,
             RunMode::Replay(list) => {
+                // several stages may share a kind (same case type and check): replay once
+                if !self.replayed_kinds.lock().unwrap().insert(kind.to_string()) {
+                    return Some(Vec::new());
+                }
                 Some(list.iter().filter(|(k, _, _)| k == kind).map(|(_, c, f)| (c.clone(), f.clone())).collect())
             }
         }
